@@ -6,7 +6,7 @@ parts=json.load(open('/verif/scripts/design_parts.json'))
 descs=json.load(open('/verif/scripts/seed_descriptions.json'))
 frozen=json.load(open('/verif/seeded/round2_frozen.json')) if os.path.exists('/verif/seeded/round2_frozen.json') else {}
 def table(pattern):
-    r2=('[cd]' in pattern) or ('[ef]' in pattern) or ('[gh]' in pattern)
+    r2=any(x in pattern for x in ('[cd]','[ef]','[gh]','[ij]'))
     t="| seed | change (needs a specific interleaving / fault / history / input to manifest) | "+("frozen checker (before round 2 was read) | " if r2 else "")+"caught by (properties) | rules that fire |\n|---|---|---|---|"+("---|" if r2 else "")+"\n"
     n=d=0
     for f in sorted(glob.glob(pattern)):
@@ -28,6 +28,9 @@ t3,n3,d3=table('/verif/seeded/*/[ef]/meta.json'); f3o=sum(1 for v in frozen.valu
 frozen=json.load(open('/verif/seeded/round4_frozen.json')) if os.path.exists('/verif/seeded/round4_frozen.json') else {}
 frozen={k.split('/')[0]+'/'+{'a':'g','b':'h'}[k.split('/')[1]]:v for k,v in frozen.items()}
 t4,n4,d4=table('/verif/seeded/*/[gh]/meta.json'); f4o=sum(1 for v in frozen.values() if v.get('own')); f4a=sum(1 for v in frozen.values() if v.get('properties')); f4n=len(frozen)
+frozen=json.load(open('/verif/seeded/round5_frozen.json')) if os.path.exists('/verif/seeded/round5_frozen.json') else {}
+frozen={k.split('/')[0]+'/'+{'a':'i','b':'j'}[k.split('/')[1]]:v for k,v in frozen.items()}
+t5,n5,d5=table('/verif/seeded/*/[ij]/meta.json'); f5o=sum(1 for v in frozen.values() if v.get('own')); f5a=sum(1 for v in frozen.values() if v.get('properties')); f5n=len(frozen)
 frozen=json.load(open('/verif/seeded/round2_frozen.json')) if os.path.exists('/verif/seeded/round2_frozen.json') else {}
 head=open('/verif/scripts/design_head.md').read(); tail=open('/verif/scripts/design_tail.md').read()
 r2=open('/verif/scripts/design_round2.md').read() if os.path.exists('/verif/scripts/design_round2.md') else ''
@@ -37,7 +40,9 @@ r3=open('/verif/scripts/design_round3.md').read() if os.path.exists('/verif/scri
 r3=r3.replace('@@SEEDTABLE3@@',t3).replace('@@N3@@',str(n3)).replace('@@D3@@',str(d3)).replace('@@F3O@@',str(f3o)).replace('@@F3A@@',str(f3a)).replace('@@F3N@@',str(f3n))
 r4=open('/verif/scripts/design_round4.md').read() if os.path.exists('/verif/scripts/design_round4.md') else ''
 r4=r4.replace('@@SEEDTABLE4@@',t4).replace('@@N4@@',str(n4)).replace('@@D4@@',str(d4)).replace('@@F4O@@',str(f4o)).replace('@@F4A@@',str(f4a)).replace('@@F4N@@',str(f4n))
-r2=r2+r3+r4
+r5=open('/verif/scripts/design_round5.md').read() if os.path.exists('/verif/scripts/design_round5.md') else ''
+r5=r5.replace('@@SEEDTABLE5@@',t5).replace('@@N5@@',str(n5)).replace('@@D5@@',str(d5)).replace('@@F5O@@',str(f5o)).replace('@@F5A@@',str(f5a)).replace('@@F5N@@',str(f5n))
+r2=r2+r3+r4+r5
 rt=''
 for f in sorted(glob.glob('/verif/evidence/C*.json')):
     e=json.load(open(f)); c=e['coverage']
